@@ -893,6 +893,342 @@ func doOrder(srvM, cliM *msess, o order, class string) {
 	}
 }
 
+
+// ---------------------------------------------------------------- proxy histories
+
+// popOp is one proxy operation run on a REAL client Session: the Session / Proxy API directly
+// (api) or the MvProxy task through the client's muxHandleInternal (task = operation + infoProxy echo).
+type popOp struct {
+	kind string // attach replace close write
+	task bool
+	name string
+	addr string // as given ("" = take the profile's host)
+	prof []byte // config bytes of the profile
+	k    int    // write: the kind
+}
+
+func (o popOp) eff() string {
+	if o.addr == "" {
+		return "127.0.0.1:0" // the Host of every generated profile
+	}
+	return o.addr
+}
+func (o popOp) term(prof []byte) string {
+	var t string
+	switch o.kind {
+	case "attach":
+		t = fmt.Sprintf("PAttach %s %s %s", st(o.name), st(o.eff()), bt(prof))
+	case "replace":
+		t = fmt.Sprintf("PReplace %s %s", st(o.eff()), bt(prof))
+	case "close":
+		t = "PClose"
+	default:
+		return fmt.Sprintf("PWrite %d", o.k)
+	}
+	if o.task {
+		return "PTask (" + t + ")"
+	}
+	return t
+}
+func (o popOp) desc() map[string]interface{} {
+	d := map[string]interface{}{"op": o.kind, "via": map[bool]string{true: "MvProxy task", false: "Session/Proxy API"}[o.task]}
+	switch o.kind {
+	case "attach":
+		d["name"], d["addr"], d["profile"] = o.name, o.addr, intsOf(o.prof)
+	case "replace":
+		d["addr"], d["profile"] = o.addr, intsOf(o.prof)
+	case "write":
+		d["kind"] = kindName[o.k]
+	}
+	return d
+}
+func intsOf(b []byte) []int {
+	o := make([]int, len(b))
+	for i := range b {
+		o[i] = int(b[i])
+	}
+	return o
+}
+
+// marshalled returns MarshalBinary() of an independent Profile instance parsed from the config bytes.
+func marshalled(b []byte) []byte {
+	p, err := cfg.Raw(b)
+	if err != nil {
+		panic("harness profile does not parse: " + err.Error())
+	}
+	m, ok := p.(interface{ MarshalBinary() ([]byte, error) })
+	if !ok {
+		panic("harness profile does not marshal")
+	}
+	v, err := m.MarshalBinary()
+	if err != nil {
+		panic(err)
+	}
+	return v
+}
+
+type pentry struct {
+	name, addr string
+	prof       []byte
+}
+
+// doProxyHistory runs h on a fresh real client Session built from base, then writes and reads back
+// every kind.  The oracle keeps its own record of what the proxy currently IS (updated from the
+// operations that returned no error) and compares every message with it.
+func doProxyHistory(base, r0 *msess, h []popOp, class string) {
+	type result struct {
+		terms []string
+		descs []interface{}
+		fails [][3]interface{}
+	}
+	done := make(chan bool, 1)
+	var (
+		s    *c2.Session
+		cur  *pentry
+		last = "none"
+	)
+	b0 := *base
+	b0.Proxy, b0.Client, b0.Closing = nil, true, false
+	hterm := make([]string, 0, len(h))
+	hdesc := make([]interface{}, 0, len(h))
+	effective := false
+	go func() {
+		defer func() {
+			if x := recover(); x != nil {
+				fail(fmt.Sprintf("a proxy operation panicked: %v", x), "proxy-history-panic-after-"+last, map[string]interface{}{"history": hdesc})
+				done <- false
+				return
+			}
+			done <- true
+		}()
+		s = b0.build()
+		for _, o := range h {
+			var (
+				err  error
+				mp   []byte
+				echo []byte
+			)
+			if o.kind == "attach" || o.kind == "replace" {
+				mp = marshalled(o.prof)
+			}
+			attached, active, _, _ := c2.VerifC12ProxyState(s)
+			switch {
+			case o.kind == "write":
+				var p com.Packet
+				err = c2.VerifC12Write(s, uint8(o.k), &p)
+			case o.task:
+				n := &com.Packet{ID: task.MvProxy}
+				n.WriteString(o.name)
+				switch o.kind {
+				case "close":
+					n.WriteUint8(0)
+				case "replace":
+					n.WriteUint8(1)
+					n.WriteString(o.addr)
+					n.WriteBytes(o.prof)
+				default:
+					n.WriteUint8(2)
+					n.WriteString(o.addr)
+					n.WriteBytes(o.prof)
+				}
+				echo, err = c2.VerifC12MuxInternal(s, n)
+			case o.kind == "attach":
+				var p cfg.Profile
+				if p, err = cfg.Raw(o.prof); err == nil {
+					_, err = s.NewProxy(o.name, o.addr, p)
+				}
+			case o.kind == "replace":
+				var p cfg.Profile
+				if p, err = cfg.Raw(o.prof); err == nil {
+					err = s.Proxy("").Replace(o.addr, p)
+				}
+			case o.kind == "close":
+				err = s.Proxy("").Close()
+			}
+			hterm = append(hterm, o.term(mp))
+			d := o.desc()
+			if err != nil {
+				d["error"] = err.Error()
+			}
+			hdesc = append(hdesc, d)
+			if o.kind == "write" {
+				continue
+			}
+			last = o.kind
+			// the expectation: what an operator may conclude from the call's result
+			switch {
+			case err != nil:
+			case o.kind == "attach":
+				cur, effective = &pentry{o.name, o.eff(), mp}, true
+			case o.kind == "replace":
+				cur.addr, cur.prof, effective = o.eff(), mp, true
+			case o.kind == "close":
+				cur = nil
+			}
+			// an operation that must be refused
+			if err == nil && ((o.kind == "attach" && attached) || (o.kind != "attach" && !attached) || (o.kind == "replace" && !active)) {
+				fail("a proxy operation that cannot apply returned no error", "proxy-history-accepted-"+o.kind, map[string]interface{}{"history": hdesc})
+			}
+			// the MvProxy echo (infoProxy: name and address) of a successful task
+			if o.task && err == nil {
+				r := readFlat(r0, kProxy, echo)
+				var want []c2.VerifC12PD
+				if cur != nil {
+					want = []c2.VerifC12PD{{Name: cur.name, Addr: cur.addr}}
+				}
+				if r.err != nil || r.panic || !pdEqual(want, r.pd) {
+					fail("the MvProxy echo does not describe the proxy as it is after the operation", "proxy-history-echo-after-"+o.kind,
+						map[string]interface{}{"history": hdesc, "echo": intsOf(echo)})
+				}
+			}
+			// the Proxy object itself
+			at, ac, nm, ad := c2.VerifC12ProxyState(s)
+			if cur != nil && !(at && ac && nm == cur.name && ad == cur.addr) {
+				fail("the attached Proxy is not the one the operations describe", "proxy-history-object-after-"+o.kind,
+					map[string]interface{}{"history": hdesc, "attached": at, "active": ac, "name": nm, "addr": ad})
+			}
+			if cur == nil && at && ac {
+				fail("a Proxy is active although none should be", "proxy-history-object-after-"+o.kind, map[string]interface{}{"history": hdesc})
+			}
+		}
+	}()
+	select {
+	case ok := <-done:
+		if !ok {
+			return
+		}
+	case <-time.After(20 * time.Second):
+		fail("a proxy operation did not return within 20 s", "proxy-history-timeout-after-"+last, map[string]interface{}{"history": hdesc})
+		return
+	}
+	defer func() {
+		if at, ac, _, _ := c2.VerifC12ProxyState(s); at && ac {
+			fin := make(chan struct{})
+			go func() { defer func() { recover(); close(fin) }(); s.Proxy("").Close() }()
+			select {
+			case <-fin:
+			case <-time.After(5 * time.Second):
+			}
+		}
+	}()
+	// the sender as the oracle sees it
+	snd := b0
+	if cur != nil {
+		snd.Proxy = &c2.VerifC12Proxy{Name: cur.name, Addr: cur.addr, Profile: cur.prof, Active: true}
+	}
+	for k := kHello; k <= kSyncMigrate; k++ {
+		var p com.Packet
+		werr := func() (err error) {
+			defer func() {
+				if x := recover(); x != nil {
+					err = io.ErrClosedPipe
+				}
+			}()
+			return c2.VerifC12Write(s, uint8(k), &p)
+		}()
+		desc := map[string]interface{}{"history": hdesc, "then": kindName[k], "session": b0.desc()}
+		if cur != nil {
+			desc["proxy_now"] = map[string]interface{}{"name": cur.name, "addr": cur.addr, "profile": intsOf(cur.prof)}
+		} else {
+			desc["proxy_now"] = nil
+		}
+		if werr != nil {
+			fail("writeDeviceInfo failed after a history of proxy operations", "proxy-history-write-"+kindName[k]+"-after-"+last, desc)
+			continue
+		}
+		wb := append([]byte{}, p.Payload()...)
+		sizes := []int{1 + rng.Intn(9), 1 + rng.Intn(60)}
+		if k%2 == 0 {
+			sizes = nil
+		}
+		r := readStream(r0, k, chop(wb, sizes))
+		rf := readFlat(r0, k, wb)
+		for _, x := range []rres{r, rf} {
+			switch {
+			case x.panic || x.err != nil:
+				fail(kindName[k]+" message written after a history of proxy operations is not readable", "proxy-history-read-"+kindName[k]+"-after-"+last, desc)
+			case diffCarried(k, &snd, r0, x.after) != "":
+				desc["field"] = diffCarried(k, &snd, r0, x.after)
+				fail(kindName[k]+" message after a history of proxy operations: a field differs from the sender's", "proxy-history-field-"+kindName[k]+"-after-"+last, desc)
+			case !pdEqual(expectProxies(k, &snd), x.pd):
+				got := make([]interface{}, len(x.pd))
+				for i := range x.pd {
+					got[i] = map[string]interface{}{"name": x.pd[i].Name, "addr": x.pd[i].Addr, "profile": intsOf(x.pd[i].Profile)}
+				}
+				desc["receiver_got"] = got
+				fail(kindName[k]+" message carries a proxy list that is not the proxy's current name / bind address / profile", "proxy-history-list-"+kindName[k]+"-after-"+last, desc)
+			default:
+				continue
+			}
+			break
+		}
+		out.Add(fmt.Sprintf("CProxyHist %s %s %d %s %s %s %s", b0.term(), vh.List(hterm), k, r0.term(), splitTerm(sizes), bobs(wb), r.term()),
+			"proxy-history-"+kindName[k]+"-"+class, effective, desc)
+	}
+}
+
+var proxyAddrs = []string{"127.0.0.1:0", "127.0.0.2:0", "localhost:0", "127.9.8.7:0", ""}
+
+func proxyProfile(i int) []byte {
+	set := []cfg.Setting{cfg.Host("127.0.0.1:0"), cfg.ConnectTCP, cfg.Sleep(time.Duration(5+i) * time.Second)}
+	if i%2 == 1 {
+		set = append(set, cfg.WrapHex)
+	}
+	if i%3 == 1 {
+		set = append(set, cfg.Jitter(uint(10+i)))
+	}
+	if i%4 == 3 {
+		set = append(set, cfg.WrapBase64)
+	}
+	return []byte(cfg.Pack(set...))
+}
+
+func randHistory(n int) []popOp {
+	var (
+		h                []popOp
+		attached, active bool
+	)
+	for len(h) < n {
+		o := popOp{task: rng.Bool(), name: "px" + fmt.Sprint(rng.Intn(3)), addr: proxyAddrs[rng.Intn(len(proxyAddrs))], prof: proxyProfile(rng.Intn(12))}
+		switch x := rng.Intn(10); {
+		case x < 3:
+			o.kind = "attach"
+			if attached && rng.Intn(3) > 0 {
+				continue // a refused attach now and then only
+			}
+			if !attached {
+				attached, active = true, true
+			}
+		case x < 6:
+			o.kind = "replace"
+			if attached && !active {
+				continue // Replace on a closed Proxy is not exercised (see notes)
+			}
+			if !attached && (!o.task || rng.Intn(3) > 0) {
+				continue // without a record only the task can be asked (os.ErrNotExist)
+			}
+		case x < 8:
+			o.kind = "close"
+			if !attached && (!o.task || rng.Intn(3) > 0) {
+				continue
+			}
+			if attached {
+				active = false
+				if o.task {
+					attached = false // the echo drops the record
+				}
+			}
+		default:
+			o.kind, o.k = "write", rng.Intn(6)
+			if attached && !active && (o.k <= kRefresh || o.k == kProxy) {
+				attached = false
+			}
+		}
+		h = append(h, o)
+	}
+	return h
+}
+
 // ---------------------------------------------------------------- generators
 
 var (
@@ -1322,6 +1658,33 @@ func main() {
 				o = order{kind: "TaskWork", w: w}
 			}
 			doOrder(srv, cli, o, "random")
+		}
+	}
+
+	// ---- histories of proxy operations on a real client Session (loopback listeners), then every kind
+	{
+		P := proxyProfile
+		base := randSess(true)
+		base.Net = gnet(1, 31, 1, 1)
+		r0 := randSess(false)
+		corpus := [][]popOp{
+			{{kind: "attach", name: "px", addr: "127.0.0.1:0", prof: P(0)}},
+			{{kind: "attach", name: "px", addr: "127.0.0.1:0", prof: P(0)}, {kind: "replace", task: true, name: "px", addr: "127.0.0.1:0", prof: P(1)}},
+			{{kind: "attach", task: true, name: "edge", addr: "127.0.0.2:0", prof: P(2)}, {kind: "replace", addr: "localhost:0", prof: P(5)}, {kind: "replace", task: true, name: "edge", addr: "", prof: P(7)}},
+			{{kind: "attach", name: "a", addr: "", prof: P(3)}, {kind: "close", task: true, name: "a"}, {kind: "attach", task: true, name: "b", addr: "127.0.0.2:0", prof: P(4)}},
+			{{kind: "attach", name: "a", addr: "127.0.0.1:0", prof: P(3)}, {kind: "close"}, {kind: "attach", name: "b", addr: "127.0.0.1:0", prof: P(4)}, {kind: "write", k: kRefresh}, {kind: "attach", name: "c", addr: "127.0.0.2:0", prof: P(6)}},
+			{{kind: "replace", task: true, name: "px", addr: "127.0.0.1:0", prof: P(1)}, {kind: "close", task: true, name: "px"}},
+			{{kind: "attach", name: "px", addr: "127.0.0.1:0", prof: P(8)}, {kind: "attach", task: true, name: "other", addr: "127.0.0.2:0", prof: P(9)}, {kind: "replace", addr: "127.0.0.2:0", prof: P(8)}, {kind: "close"}},
+		}
+		for _, h := range corpus {
+			doProxyHistory(base, r0, h, "corpus")
+		}
+		nh := 24
+		if thorough {
+			nh = 400
+		}
+		for i := 0; i < nh; i++ {
+			doProxyHistory(randSess(true), r0, randHistory(1+rng.Intn(6)), "random")
 		}
 	}
 
